@@ -65,9 +65,9 @@ def correspondence(ctx, pid, gen_kwargs, nq, nt, accept=None, extra_progs=()):
     progs = corpus + list(extra_progs) + gen_programs(ctx, n, gen_kwargs, accept)
     nev, dis, rows, errors, shards = FS.run_programs(progs, pid.lower())
     out = []
-    for d in dis[:3]:
+    for n_, d in enumerate(dis[:3]):
         if d.get('kind') == 'model!=impl':
-            small = FS.shrink(d['prog'])
+            small = FS.shrink(d['prog']) if n_ == 0 else d['prog']
             rr = FS.ImplRun(small).run()
             out.append(dict(kind='model!=impl', stream='filter', case=FS.describe(small, rr)))
         else:
